@@ -84,12 +84,13 @@ def run(ctx):
     n_rand = 200 if ctx.quick else 4000
     for _ in range(n_rand):
         p = projgen.random_project(rng, max_depth=rng.choice([2, 3, 4, 5]), externals=rng.random() < 0.5,
-                                   n_stmts=rng.randint(4, 40))
+                                   n_stmts=rng.randint(4, 40), rel_abs=True)
         ep = sc.ScanEpisode(p)
-        ep.scan()
-        subs = [d for d in p["dirs"] if len(d) > 1]
-        if subs:
-            ep.scan(mpath=rng.choice(subs))
+        subs = [d for d in p["dirs"] if len(d) > 1] + p.get("rel_dirs", [])
+        order = [None] + ([rng.choice(subs)] if subs else []) + ([rng.choice(subs)] if subs and rng.random() < 0.5 else [])
+        rng.shuffle(order)              # the root scan first, last or in between: scans must not influence each other
+        for mp in order:
+            ep.scan(mpath=mp)
         specs.append(ep.spec)
     tr, episodes, fails = sc.run_and_validate(specs)
     st = sc.stats(episodes)
